@@ -41,7 +41,7 @@ RULE = (
     "sparse_to_dense / dense_to_sparse under RangeIndex(0..n), offset and stepped RangeIndex, "
     "DatetimeIndex and PeriodIndex: dense must have exactly that index and equal the reference "
     "densification (positions only); dense_to_sparse(dense) must reproduce the sparse input; "
-    "(ii) detector zoo with non-default indexes / string columns: icontract K2 on transform() "
+    "plus random hand-built outputs with n<=15, p<=7; (ii) detector zoo (p<=5) with non-default indexes / string columns: icontract K2 on transform() "
     "(index identical, labels == reference densification of the predict() observed in the same call) "
     "and dense_to_sparse(transform(X)) == predict(X). Non-trivial = >=1 event and (non-default "
     "index or adjacent events); distinct by (kind, n, events, index type)."
@@ -170,7 +170,7 @@ def plan_handbuilt(tier):
 def zoo_recipe(rng, tier):
     from vf.zoo import random_detector
 
-    spec, nmin, p = random_detector(rng, dense_events=True, pmax=3)
+    spec, nmin, p = random_detector(rng, dense_events=True, pmax=5)
     n = int(rng.integers(nmin, nmin + (40 if tier == "quick" else 90)))
     kind = ["mean_changes", "spikes", "collective", "small_alphabet", "piecewise_const",
             "noise"][int(rng.integers(6))]
@@ -240,6 +240,29 @@ def run(ctx):
                 r["columns"] = "strings" if (i + len(ik)) % 2 else "default"
             exec_case(ctx, r)
     ctx.sample({"handbuilt_example": jobs[min(len(jobs) - 1, 37 + ctx.shard)]})
+    # random (non-exhaustive) hand-built outputs beyond the enumerated bounds: wider p, longer n
+    for _ in range(150 if ctx.tier == "quick" else 2000):
+        rng = ctx.rng
+        n = int(rng.integers(6, 16))
+        p = int(rng.integers(2, 8))
+        iv, t = [], int(rng.integers(0, 3))
+        while t < n and len(iv) < 5:
+            e = min(n, t + int(rng.integers(1, 5)))
+            iv.append([t, e])
+            t = e + int(rng.choice([0, 0, 1, 2]))
+        cols = [sorted(int(c) for c in rng.choice(p, size=int(rng.integers(1, p + 1)), replace=False))
+                for _ in iv]
+        kind = ["subset", "subset", "anomaly", "change"][int(rng.integers(4))]
+        r = {"kind": kind, "n": n, "p": p if kind == "subset" else 1, "index": INDEX_KINDS[int(rng.integers(5))],
+             "columns": "strings" if (rng.random() < 0.5 and p <= 6) else "default", "random": True}
+        if kind == "subset":
+            r.update(events=iv, cols=cols)
+        elif kind == "anomaly":
+            r.update(events=iv)
+        else:
+            r.update(events=sorted({int(c) for c in rng.integers(1, n, size=int(rng.integers(0, 6)))}))
+        ctx.stat("handbuilt_random")
+        exec_case(ctx, r)
     for _ in range(ZOO_CASES[ctx.tier]):
         exec_case(ctx, zoo_recipe(ctx.rng, ctx.tier))
     ctx.stat("K2_evaluations", I.COUNTS["K2"])
